@@ -33,6 +33,9 @@ def spec_strategy(draw, lines=False):
         'bound': draw(st.sampled_from([1, 2, 3, 4, 0])),
         'sup_delays': [draw(st.sampled_from([0, 0, 0.001, 0.01])) for _ in range(m)],
         'con_delays': [draw(st.sampled_from([0, 0, 0.001, 0.01])) for _ in range(n)],
+        # between two rounds (documented in put_end): a supplier may already put its items of the next round and call
+        # put_end(wait_for_renew=True), and further consumers may iterate the exhausted queue (they receive nothing), before renew()
+        'early': [draw(st.one_of(st.none(), st.none(), st.fixed_dictionaries({'k': st.integers(0, m - 1), 'late': st.integers(0, 2)}))) for _ in range(rounds)],
         'sched': draw(sched_strategy(max_len=300 if lines else 200, est_steps=4000 if lines else 1200, depth=4)),
     }
 
@@ -42,20 +45,22 @@ def run_case(spec, lines=False):
 
     m, n, rounds = spec['m'], spec['n'], spec['rounds']
     got = [[[] for _ in range(n)] for _ in range(rounds)]
+    late_got = []
     errs = []
 
     def scenario():
         base = queue.Queue(spec['bound']) if spec['qkind'] == 'Queue' else queue.SimpleQueue()
         q = IterableQueue(base, num_suppliers=m)
+        started_early = None
         for r in range(rounds):
 
-            def sup(k, r=r):
+            def sup(k, r=r, wait=False):
                 try:
                     for j in range(spec['counts'][r][k]):
                         if spec['sup_delays'][k]:
                             time.sleep(spec['sup_delays'][k])
                         q.put((r, k, j))
-                    q.put_end()
+                    q.put_end(wait_for_renew=wait)
                 except SimAbort:
                     raise
                 except BaseException as e:
@@ -72,12 +77,43 @@ def run_case(spec, lines=False):
                 except BaseException as e:
                     errs.append(('consumer', r, k, repr(e)))
 
-            ths = [threading.Thread(target=sup, args=(k,), name=f'harness-supplier-{k}') for k in range(m)] + [threading.Thread(target=con, args=(k,), name=f'harness-consumer-{k}') for k in range(n)]
+            ths = [threading.Thread(target=sup, args=(k,), name=f'harness-supplier-{k}') for k in range(m) if started_early is None or k != started_early[0]]
+            ths += [threading.Thread(target=con, args=(k,), name=f'harness-consumer-{k}') for k in range(n)]
             for t in ths:
                 t.start()
+            if started_early is not None:
+                ths.append(started_early[1])
+                started_early = None
             for t in ths:
                 t.join()
             if r + 1 < rounds:
+                early = (spec.get('early') or [None] * rounds)[r]
+                if early:
+                    k = early['k'] % m
+
+                    def sup_next(k=k, r=r):
+                        sup(k, r + 1, True)
+
+                    et = threading.Thread(target=sup_next, name=f'harness-supplier-{k}-early')
+                    et.start()
+                    started_early = (k, et)
+                    lates = []
+                    for i in range(early['late']):
+
+                        def late(i=i, r=r):
+                            try:
+                                for x in q:
+                                    late_got.append((r, i, x))
+                            except SimAbort:
+                                raise
+                            except BaseException as e:
+                                errs.append(('late consumer', r, i, repr(e)))
+
+                        lates.append(threading.Thread(target=late, name=f'harness-late-consumer-{i}'))
+                    for t in lates:
+                        t.start()
+                    for t in lates:
+                        t.join()
                 try:
                     q.renew()
                 except SimAbort:
@@ -91,6 +127,8 @@ def run_case(spec, lines=False):
     hang_check(out)
     if errs:
         raise Violation('party_raised', f'{errs[:3]}', signature=['party_raised', errs[0][0]])
+    if late_got:
+        raise Violation('exhausted_queue_delivered', f'a consumer iterating the exhausted queue before renew() received {late_got[:4]} (items put for the next round are not accessible until renew)', signature=['exhausted_queue_delivered'])
     for r in range(rounds):
         want = Counter((r, k, j) for k in range(m) for j in range(spec['counts'][r][k]))
         have = Counter(x for c in got[r] for x in c)
@@ -105,7 +143,7 @@ def run_case(spec, lines=False):
     return CaseInfo(
         nontrivial=(m * n >= 2 and rounds >= 2),
         descriptor=[m, n, rounds, spec['counts'], spec['qkind'], spec['bound'], out.sim.trace[:80]],
-        classes=(f'm{m}', f'n{n}', f'rounds{rounds}', spec['qkind'], f"bound{spec['bound']}", 'lines' if lines else 'syncpoints'),
+        classes=(f'm{m}', f'n{n}', f'rounds{rounds}', spec['qkind'], f"bound{spec['bound']}", 'lines' if lines else 'syncpoints', 'early_puts' if any((spec.get('early') or [])[: rounds - 1]) else 'rounds_apart'),
         metrics={'steps': out.sim.steps, 'items': total},
         sample={'m': m, 'n': n, 'rounds': rounds, 'counts': spec['counts'], 'qkind': spec['qkind'], 'bound': spec['bound'], 'received_per_consumer': [[len(c) for c in got[r]] for r in range(rounds)]},
     )
